@@ -1447,13 +1447,19 @@ func ruleTrackCount(c *Ctx) {
 	c.site(1)
 	name := fname(fn)
 	problem := ""
+	// the rendering may sit in a helper (build() + WriteTo): look at the whole region
 	var addCall *ssa.Call
 	var applyCall, getCall, lenCall, writeCall ssa.CallInstruction
-	for _, ci := range callsIn(fn) {
+	var addRC, writeRC *rcall
+	region := c.regionCalls(fn, nil)
+	trw := c.plainTracer()
+	for i := range region {
+		ci := region[i].call
 		n := calleeName(ci.Common())
 		switch {
 		case strings.HasSuffix(n, "smf.SMF.Add"):
 			addCall, _ = ci.(*ssa.Call)
+			addRC = &region[i]
 		case n == "midix.Track.Apply":
 			applyCall = ci
 		case n == "midix.TrackSet.Get":
@@ -1462,12 +1468,13 @@ func ruleTrackCount(c *Ctx) {
 			lenCall = ci
 		case strings.HasSuffix(n, "smf.SMF.WriteTo"):
 			writeCall = ci
+			writeRC = &region[i]
 		}
 	}
 	switch {
 	case addCall == nil || applyCall == nil || getCall == nil || lenCall == nil || writeCall == nil:
 		problem = "expected Len / Get / Apply / SMF.Add / SMF.WriteTo calls"
-	case !inLoop(addCall.Block()) || !inLoop(applyCall.Block()):
+	case !inLoop(addCall.Block()) || !inLoop(applyCall.Block()) || addCall.Parent() != applyCall.Parent():
 		problem = "tracks are not added in a loop"
 	default:
 		l := enclosingRangeLoop(addCall.Block())
@@ -1488,19 +1495,36 @@ func ruleTrackCount(c *Ctx) {
 				problem = fmt.Sprintf("some iterations skip SMF.Add (between %d and %d calls per track): the file has fewer track chunks than --track asked for", mn, mx)
 			}
 		}
-		// error of Add checked
-		used := false
-		for _, r := range *addCall.Referrers() {
-			if b, ok := r.(*ssa.BinOp); ok && b.Op == token.NEQ {
-				used = true
-			}
-		}
-		if !used {
+		// error of Add returned (through every helper level)
+		if !c.errorReturnedUp(*addRC) {
 			problem = "the error of SMF.Add is ignored (a track that cannot be added is silently dropped)"
+		}
+		// what is written is the SMF the tracks were added to
+		if problem == "" {
+			wr := trw.trace(lval{writeCall.Common().Args[0], writeRC.fn, writeRC.chain})
+			ad := trw.trace(lval{addCall.Call.Args[0], addRC.fn, addRC.chain})
+			if !wr.same(ad) {
+				problem = "the SMF that is written out is not the one the tracks were added to"
+			}
 		}
 	}
 	// header division = writer clock
 	tf := false
+	regionFns := map[*ssa.Function]bool{fn: true}
+	for _, rc := range region {
+		regionFns[rc.fn] = true
+	}
+	for rf := range regionFns {
+		allInstrs(rf, func(in ssa.Instruction) {
+			if st, ok := in.(*ssa.Store); ok {
+				if n, _, ok := fieldName(st.Addr); ok && n == "TimeFormat" {
+					if ln, _, ok := loadedField(stripConv(st.Val)); ok && ln == "clock" {
+						tf = true
+					}
+				}
+			}
+		})
+	}
 	allInstrs(fn, func(in ssa.Instruction) {
 		if st, ok := in.(*ssa.Store); ok {
 			if n, _, ok := fieldName(st.Addr); ok && n == "TimeFormat" {
